@@ -86,6 +86,8 @@ void bodyEnc(int, void* a)
     st.setPayload(cm);
     st.setVendorId((uint16_t) A.u);
     std::vector<Packet> batch = {genericPacket(1, 5, A.u, 1), st, genericPacket(1, 100, A.u, 2)};
+    for (auto& p : batch)
+        p.setVersion(2);   // not the default version: a frame header built from defaults instead of the packet shows
     API_POINT();
     auto frames = e.encode(batch.begin(), batch.end(), DataContext{0, 64});
     API_POINT();
